@@ -1,7 +1,7 @@
 #!/venv/bin/python
 """Translator: regenerate the declarative part of the Lean model from /repo's *current* working tree.
 
-Writes /verif/lean/VModel/Generated/{Relations,Typesets,BoolMap,SparkTable,PandasDtypes}.lean.
+Writes /verif/lean/VModel/Generated/{Relations,Typesets,BoolMap,SparkTable,PandasDtypes,NumpyDtypes}.lean.
 Files are only rewritten when their content changes (keeps `lake build` incremental).
 
 What is read and how (see DESIGN.md §3.1):
@@ -441,6 +441,82 @@ def gen_pandas_dtypes():
     return "\n".join(L) + "\n", table
 
 
+# --------------------------------------------------------------------------- numpy dtype table + registrations
+
+NP_CLASSES = [("isBoolDt", "np.bool_"), ("isIntegerDt", "np.integer"), ("isFloatingDt", "np.floating"),
+              ("isComplexDt", "np.complexfloating"), ("isStrDt", "np.str_"), ("isObjectDt", "np.object_"),
+              ("isDatetimeDt", "np.datetime64"), ("isTimedeltaDt", "np.timedelta64")]
+
+
+def gen_numpy_dtypes(names, idn):
+    """`np.issubdtype(dtype, cls)` of the *installed* numpy for every dtype kind x every class the numpy back end
+    tests, on several representatives per kind (they must agree), plus which membership tests and relations the back end
+    registers for `np.ndarray` (read off the multimethod registries of the imported working tree)."""
+    import numpy as np
+    import visions.types as vt
+
+    kinds = {
+        "b": [np.dtype(bool)],
+        "i": [np.dtype(t) for t in ("int8", "int16", "int32", "int64")],
+        "u": [np.dtype(t) for t in ("uint8", "uint16", "uint32", "uint64")],
+        "f": [np.dtype(t) for t in ("float16", "float32", "float64", "longdouble")],
+        "c": [np.dtype(t) for t in ("complex64", "complex128", "clongdouble")],
+        "U": [np.dtype("<U1"), np.dtype("<U24")],
+        "S": [np.dtype("S1"), np.dtype("S8")],
+        "M": [np.dtype("datetime64[ns]"), np.dtype("datetime64[D]"), np.dtype("datetime64[us]")],
+        "m": [np.dtype("timedelta64[ns]"), np.dtype("timedelta64[D]")],
+        "O": [np.dtype(object)],
+    }
+    for k, reps in kinds.items():
+        if any(d.kind != k for d in reps):
+            raise TranslateError(f"numpy dtype kind {k}: representative with another kind")
+    L = ["/- GENERATED by harness/translate.py from the *installed* numpy and the working tree. Do not edit. -/",
+         "import VModel.Generated.Relations", "namespace V.Gen", "",
+         "/-- `dtype.kind` of a numpy array (structured / void arrays are outside the model). -/",
+         "inductive NpKind where"]
+    for k in kinds:
+        L.append(f"  | {k}")
+    L.append("  deriving DecidableEq, Repr, Inhabited")
+    L.append("def NpKind.all : List NpKind := [" + ", ".join("." + k for k in kinds) + "]")
+    L.append("def NpKind.name : NpKind → _root_.String")
+    for k in kinds:
+        L.append(f"  | .{k} => {lean_str(k)}")
+    L.append("def NpKind.ofName? (s : _root_.String) : Option NpKind := NpKind.all.find? (fun t => t.name == s)")
+    L.append("")
+    table = {}
+    for lname, cls in NP_CLASSES:
+        c = eval(cls, {"np": np, "complex": complex})
+        L.append(f"/-- `np.issubdtype(dtype, {cls})` for each dtype kind. -/")
+        L.append(f"def {lname} : NpKind → Bool")
+        for k, reps in kinds.items():
+            vals = set(bool(np.issubdtype(d, c)) for d in reps)
+            if len(vals) != 1:
+                raise TranslateError(f"np.issubdtype(., {cls}) disagrees within dtype kind {k}")
+            table[(lname, k)] = vals.pop()
+            L.append(f"  | .{k} => {'true' if table[(lname, k)] else 'false'}")
+        L.append("")
+    # registrations for np.ndarray
+    reg_contains, reg_rel = [], []
+    for n in names:
+        t = getattr(vt, n)
+        if any(k[0] is np.ndarray for k in t.contains_op.keys()):
+            reg_contains.append(n)
+        for r in t.relations:
+            if r.inferential:
+                g = any(k[0] is np.ndarray for k in r.relationship.keys())
+                x = any(k[0] is np.ndarray for k in r.transformer.keys())
+                if g != x:
+                    raise TranslateError(f"numpy relation {r.related_type}->{n}: test and transformer registered differently")
+                if g:
+                    reg_rel.append((str(r.related_type), n))
+    L.append("/-- types whose membership test is registered for `np.ndarray` -/")
+    L.append("def numpyContainsRegistered : List Ty := [" + ", ".join(f".{idn[n]}" for n in reg_contains) + "]")
+    L.append("/-- inference relations (source, target) whose test and transformer are registered for `np.ndarray` -/")
+    L.append("def numpyRelationsRegistered : List (Ty × Ty) := [" + ", ".join(f"(.{idn[a]}, .{idn[b]})" for a, b in reg_rel) + "]")
+    L += ["", "end V.Gen"]
+    return "\n".join(L) + "\n", table
+
+
 def main():
     sys.path.insert(0, os.path.join(REPO, "src"))
     changed = []
@@ -460,6 +536,9 @@ def main():
         pdx, table = gen_pandas_dtypes()
         if write_if_changed("PandasDtypes.lean", pdx):
             changed.append("PandasDtypes.lean")
+        npx, _ = gen_numpy_dtypes(names, idn)
+        if write_if_changed("NumpyDtypes.lean", npx):
+            changed.append("NumpyDtypes.lean")
     except TranslateError as e:
         print(f"translate: cannot translate the current source: {e}", file=sys.stderr)
         return 3
